@@ -51,7 +51,7 @@ async def waiter(value):
     """
     if isinstance(value, (list,tuple)):
         values = await asyncio.gather(*[waiter(v) for v in value])
-        return type(value)(values)
+        return type(value)._make(values) if hasattr(type(value), '_make') else type(value)(values) # a namedtuple takes its fields one by one
     elif isinstance(value, dict):
         values = await asyncio.gather(*[waiter(v) for v in value.values()])
         return type(value)(dict(zip(value.keys(), values))) 
